@@ -11,7 +11,11 @@
   in a fourth round for the hyperslab check, the call test and the sequence projection: tuples of ints-or-slices,
   `for x, y in zip(a, b)`, `a if c else b`, `isinstance(x, slice)`, regexp match objects as their groups
   (`m.group(n)`, truth), `sep.join(list)`, `a in b` on text, `x[a:]` with a computed bound, `x[n] = e`,
-  `a, b, c = s.rpartition(sep)`.
+  `a, b, c = s.rpartition(sep)`;
+  in a fifth round for the lazy row streams (C17), the consolidated-metadata texts (C18) and the stored proxy slice
+  (C02): lists of opaque objects (closures), `x.insert(0, e)`, `l.index(x)`, `isinstance(x, list)`,
+  `try: <one assignment> except C: …`, lazy pipelines (`iter`, `filter`, `map`, `itertools.islice` as the list of their
+  stages), `s.split(sep)[0]`, `tuple(e)`, tuple `+`, `tuple(c for _ in e)`.
   `harness/py2lean.py` translates the
   *source text* of the chosen function bodies into `Stmt` values (pure syntax → syntax); the semantics below is the
   trusted reading of that fragment.  Theorems in Props/ relate the interpreted source to the hand-written model.
@@ -22,6 +26,13 @@ namespace Pydap.MiniPy
 inductive Item where
   | int (i : Int)
   | slice (start stop step : Option Int)
+deriving DecidableEq, Repr, Inhabited
+
+/-- one stage of a lazy pipeline over an iterator: the function objects are opaque (tags) -/
+inductive Stage where
+  | filt (f : Nat)                           -- `filter(f, data)`
+  | map (m : Nat)                            -- `map(m, data)`
+  | islice (start stop step : Option Int)    -- `itertools.islice(data, start, stop, step)`
 deriving DecidableEq, Repr, Inhabited
 
 inductive Val where
@@ -41,6 +52,9 @@ inductive Val where
   | matchObj (groups : List (List Nat))      -- a regexp match object: group 0, group 1, … (all participating)
   | float (bits : Nat)                       -- a Python float (opaque: only `isinstance` looks at it)
   | obj (tag : Nat)                          -- some other Python object (opaque: no operation of the fragment applies)
+  -- fifth round
+  | olist (l : List Nat)                     -- a list of opaque objects (closures), by their tags
+  | pipe (src : Nat) (stages : List Stage)   -- a lazy iterator: `iter(obj src)` with the stages wrapped around it, innermost first
 deriving DecidableEq, Repr, Inhabited
 
 inductive Err where
@@ -103,6 +117,17 @@ inductive Expr where
   | slistc (l : List (List Nat))              -- a list literal of string constants
   | strRepeat (s n : Expr)                    -- `s * n` / `n * s` for text `s` and an int `n`
   | fmtArg (e : Expr)                         -- what `"{}".format(e)` substitutes: text as it is, an int in decimal
+  -- fifth round
+  | isList (e : Expr)                         -- `isinstance(e, list)`
+  | indexOf (l x : Expr)                      -- `l.index(x)` on a list of strings (ValueError when absent)
+  | iterOf (e : Expr)                         -- `iter(e)` of an opaque iterable
+  | pyFilter (f d : Expr)                     -- `filter(f, d)` (lazy: a new stage)
+  | pyMap (m d : Expr)                        -- `map(m, d)`
+  | pyIslice (d a b c : Expr)                 -- `itertools.islice(d, a, b, c)`
+  | splitHead (e sep : Expr)                  -- `e.split(sep)[0]`: the text before the first `sep` (all of it without one)
+  | tupleOf (e : Expr)                        -- `tuple(e)` of a tuple / list of ints and slices
+  | tconcat (a b : Expr)                      -- `a + b` on such tuples
+  | repeatFor (c e : Expr)                    -- `tuple(c for _ in e)`: `c` once per element of `e` (`c` does not read `_`)
 deriving Repr, Inhabited
 
 inductive Stmt where
@@ -119,6 +144,9 @@ inductive Stmt where
   | setIdx (x : String) (n : Nat) (e : Expr)      -- `x[n] = e` on a list of strings
   | unpack3 (a b c : String) (e : Expr)           -- `a, b, c = e` where `e` is a list of three strings
   | sortByIndex (x : String) (p : Expr)           -- `x.sort(key=p.index)` on lists of strings
+  -- fifth round
+  | tryExcept (body : Stmt) (cls : String) (handler : Stmt)   -- `try: <one assignment> except cls: handler`
+  | insertFront (x : String) (e : Expr)           -- `x.insert(0, e)`
 deriving Repr, Inhabited
 
 abbrev Env := List (String × Val)
@@ -146,6 +174,8 @@ def truthy : Val → Bool
   | .matchObj _ => true
   | .float b => b != 0                       -- (placeholder: the truth of a float is never read by a tied block)
   | .obj _ => true
+  | .olist l => !l.isEmpty
+  | .pipe _ _ => true
 
 def Item.toVal : Item → Val
   | .int i => .int i
@@ -263,6 +293,7 @@ def iterItems : Val → Except Err (List Val)
   | .slist l => .ok (l.map .str)
   | .elems l => .ok (l.map .elem)
   | .tuple l => .ok (l.map Item.toVal)
+  | .olist l => .ok (l.map .obj)
   | _ => .error .typeError
 
 /-- `l.append(v)` / `t += (v,)`; lists are homogeneous (ints or strings), the empty list is `ilist []` -/
@@ -270,7 +301,49 @@ def appendVal : Val → Val → Except Err Val
   | .ilist [], .str s => .ok (.slist [s])
   | .ilist l, .int i => .ok (.ilist (l ++ [i]))
   | .slist l, .str s => .ok (.slist (l ++ [s]))
+  | .ilist [], .obj t => .ok (.olist [t])
+  | .olist l, .obj t => .ok (.olist (l ++ [t]))
+  | .ilist [], .slice a b c => .ok (.tuple [.slice a b c])
+  | .tuple l, .slice a b c => .ok (.tuple (l ++ [.slice a b c]))
+  | .tuple l, .int i => .ok (.tuple (l ++ [.int i]))
   | _, _ => .error .unsupported
+
+/-- `l.insert(0, v)` on a list of opaque objects -/
+def insertFrontVal : Val → Val → Except Err Val
+  | .ilist [], .obj t => .ok (.olist [t])
+  | .olist l, .obj t => .ok (.olist (t :: l))
+  | _, _ => .error .unsupported
+
+/-- does the exception `e` belong to the class named in an `except` clause?  (`Exception` catches everything the
+    fragment can raise; a raised class is matched by name only: subclassing is not modelled) -/
+def errMatches (cls : String) : Err → Bool
+  | .typeError => cls == "TypeError" || cls == "Exception"
+  | .nameError => cls == "NameError" || cls == "Exception"
+  | .indexError => cls == "IndexError" || cls == "LookupError" || cls == "Exception"
+  | .keyError => cls == "KeyError" || cls == "LookupError" || cls == "Exception"
+  | .valueError => cls == "ValueError" || cls == "Exception"
+  | .zeroDivisionError => cls == "ZeroDivisionError" || cls == "ArithmeticError" || cls == "Exception"
+  | .raised c => c == cls || cls == "Exception"
+  | .unsupported => false
+
+/-- the text before the first occurrence of the non-empty `sep` -/
+def splitHeadGo (sep : List Nat) : List Nat → List Nat
+  | [] => []
+  | x :: t => if sep.isPrefixOf (x :: t) then [] else x :: splitHeadGo sep t
+
+/-- the length of anything the fragment iterates over -/
+def iterLen : Val → Except Err Nat
+  | .ilist l => .ok l.length
+  | .slist l => .ok l.length
+  | .tuple l => .ok l.length
+  | .olist l => .ok l.length
+  | .elems l => .ok l.length
+  | _ => .error .typeError
+
+def toItem : Val → Except Err Item
+  | .int i => .ok (.int i)
+  | .slice a b c => .ok (.slice a b c)
+  | _ => .error .unsupported
 
 def assocStr : List (List Nat × List Nat) → List Nat → Val
   | [], _ => .none
@@ -538,6 +611,53 @@ def eval (env : Env) : Expr → Except Err Val
       | .str cs => .ok (.str cs)
       | .int i => .ok (.str (intStr i))
       | _ => .error .unsupported
+  | .isList e => do
+      .ok (.bool (match (← eval env e) with | .ilist _ => true | .slist _ => true | .olist _ => true | _ => false))
+  | .indexOf l x => do
+      match (← eval env l), (← eval env x) with
+      | .slist ks, .str k => match indexOf? ks k with
+        | some i => .ok (.int i)
+        | none => .error .valueError
+      | .ilist [], .str _ => .error .valueError
+      | _, _ => .error .unsupported
+  | .iterOf e => do
+      match (← eval env e) with
+      | .obj t => .ok (.pipe t [])
+      | _ => .error .unsupported
+  | .pyFilter f d => do
+      match (← eval env f), (← eval env d) with
+      | .obj t, .pipe s st => .ok (.pipe s (st ++ [.filt t]))
+      | _, _ => .error .unsupported
+  | .pyMap m d => do
+      match (← eval env m), (← eval env d) with
+      | .obj t, .pipe s st => .ok (.pipe s (st ++ [.map t]))
+      | _, _ => .error .unsupported
+  | .pyIslice d a b c => do
+      let dv ← eval env d
+      let x ← toOpt (← eval env a)
+      let y ← toOpt (← eval env b)
+      let z ← toOpt (← eval env c)
+      match dv with
+      | .pipe s st => .ok (.pipe s (st ++ [.islice x y z]))
+      | _ => .error .unsupported
+  | .splitHead e sep => do
+      match (← eval env e), (← eval env sep) with
+      | .str s, .str p => if p.isEmpty then .error .valueError else .ok (.str (splitHeadGo p s))
+      | _, _ => .error .unsupported
+  | .tupleOf e => do
+      match (← eval env e) with
+      | .tuple l => .ok (.tuple l)
+      | .ilist l => .ok (.tuple (l.map .int))
+      | _ => .error .unsupported
+  | .tconcat a b => do
+      match (← eval env a), (← eval env b) with
+      | .tuple x, .tuple y => .ok (.tuple (x ++ y))
+      | _, _ => .error .unsupported
+  | .repeatFor c e => do
+      let n ← iterLen (← eval env e)
+      if n = 0 then .ok (.tuple []) else do      -- (no element: `c` is not evaluated)
+        let v ← toItem (← eval env c)
+        .ok (.tuple (List.replicate n v))
 
 def exec (env : Env) : Stmt → Except Err Env
   | .skip => .ok env
@@ -577,6 +697,14 @@ def exec (env : Env) : Stmt → Except Err Env
           .ok (setVar env x (.slist (r.map (·.2))))
       | .ilist [], _ => .ok env
       | _, _ => .error .unsupported
+  | .tryExcept body cls handler =>
+      match exec env body with
+      | .ok env' => .ok env'
+      | .error e => if errMatches cls e then exec env handler else .error e
+  | .insertFront x e => do
+      let l ← lookup env x
+      let v ← eval env e
+      .ok (setVar env x (← insertFrontVal l v))
 
 /-- the value bound to `x` after running `body` from `env` -/
 def runItem (env : Env) (body : Stmt) (x : String) : Except Err Val :=
